@@ -113,6 +113,9 @@ def logging_client_leg(ctx):
         p.viewer_sends(b"RFB 003.008\n\x01\x01")
         native = r.choice(ACCEPTED_PF)
         p.server_sends(server_init(4, 4, native, b"n"))
+        # a first update in the native format (the decoder has now sized pixels once)
+        sess0 = Session(native)
+        p.server_sends(sess0.update([enc_raw(r, native, 0, 0, 4, 4)]))
         seq = []
         for _ in range(r.randint(1, 3)):
             pf = r.choice(ACCEPTED_PF + ODD_PF)
@@ -127,6 +130,18 @@ def logging_client_leg(ctx):
         want = vclient.PF2IM.get(seq[-1])
         ctx.count("logging_client_formats")
         ctx.case(None, key=("vnclog", si))
+        if vl.image_mode == want and want is not None:
+            # ... and pixel data in the selected format is decoded in that format (sizes and channels)
+            sess1 = Session(seq[-1])
+            rc = enc_raw(r, seq[-1], 0, 0, 4, 4)
+            p.server_sends(sess1.update([rc]))
+            ref = Canvas()
+            ref.paint(0, 0, 4, 4, rc.paint[0][4], seq[-1])
+            got = screen_rgb(p.cl.vnclog) if p.cl.vnclog is not None else None
+            if got != ref.rgb():
+                ctx.violate("logging-client-format", {"input": {"native": vclient.PF2IM.get(native), "viewer_selects": [vclient.PF2IM.get(x, repr(x)) for x in seq]},
+                                                      "observed": "after the switch a 4x4 raw update in the selected format is shown by vnclog's decoder as %r..., the server sent %r..." % (got and got[2][:6].hex(), ref.rgb()[2][:6].hex()),
+                                                      "how": "in-memory logging proxy pair: update in the native format, SetPixelFormat from the viewer, update in the new format"})
         if vl.image_mode != want:
             ctx.violate("logging-client-format", {"input": {"native": vclient.PF2IM.get(native), "viewer_selects": [vclient.PF2IM.get(x, repr(x)) for x in seq]},
                                                   "observed": "vnclog's decoder has image mode %r; the format in force maps to %r" % (vl.image_mode, want),
